@@ -1,6 +1,7 @@
 package sim
 
 import (
+	"archive/tar"
 	"bytes"
 	"fmt"
 	"io"
@@ -21,7 +22,7 @@ var passwords = []string{"", "hunter2", "correct horse battery staple", "p√§ssw√
 func init() {
 	Register(&Check{
 		ID: "C18", Level: "exploration", Tech: "deterministic simulation of the two environment inputs of key handling: seeded crypto randomness and the simulated clock (generation at t0, use after a clock jump of up to 100 years)",
-		Rule:      "per run one format in {enc:age, enc:pgp, sig:minisign, sig:pgp} and one password from {empty, ASCII, phrase, multi-byte, 1 KB, blank, with newline}; a fresh pair is generated at simulated time t0 (2000-01-01 + d0), the clock is advanced by d1 in {0, 1 s, 1 year, 30 years, 100 years}; oracle: the pair parses with its password, string and stream encrypt/decrypt (sign/verify) round-trip, parsing with another password fails, and an independently generated pair of the same format neither decrypts nor verifies; non-trivial = every run (a fresh pair is generated); distinct by (format, password class, clock jump). The password/format quantifier is plain seeded generation; what the simulator owns is entropy and clock.",
+		Rule:      "per run one format in {enc:age, enc:pgp, sig:minisign, sig:pgp} and one password from {empty, ASCII, phrase, multi-byte, 1 KB, blank, with newline}; a fresh pair is generated at simulated time t0 (2000-01-01 + d0), the clock is advanced by d1 in {0, 1 s, 1 year, 30 years, 100 years}; oracle: the pair parses with its password, string and stream encrypt/decrypt (sign/verify) round-trip, parsing with another password fails, and an independently generated pair of the same format neither decrypts nor verifies - strings, streams and header records, asked before AND after the right pair has processed the very same data; non-trivial = every run (a fresh pair is generated); distinct by (format, password class, clock jump). The password/format quantifier is plain seeded generation; what the simulator owns is entropy and clock.",
 		QuickRuns: 96, QuickSecs: 80, ThoroughRuns: 1500, ThoroughSecs: 1500,
 		Assumptions: []string{"clock moves forward only (a key 'from the future' being rejected is standard OpenPGP behaviour)"},
 		Gen: func(r *rand.Rand, tier string, relax Relax) *Case {
@@ -135,6 +136,40 @@ func evalC18(t *testing.T, c *Case, st *Stats, relax Relax) *Violation {
 			if pt, err := encryption.DecryptString(ct, format, id2); err == nil {
 				return mk("other-pair-decrypts", fmt.Sprintf("a different pair decrypted the message (%d bytes)", len(pt)))
 			}
+			// header records (what the tape carries): the other pair fails before AND after the
+			// right pair has decrypted the same header, and the same with the string form again
+			mkHdr := func() *tar.Header {
+				return &tar.Header{Typeflag: tar.TypeReg, Name: "/d/" + sumOf(msg), Size: int64(len(msg)), Mode: 0o640, Uid: 7, Gid: 8, ModTime: time.Unix(946684800, 0), Format: tar.FormatPAX,
+					PAXRecords: map[string]string{"STFS.Action": "CREATE"}}
+			}
+			eh := mkHdr()
+			if err := encryption.EncryptHeader(eh, format, rec); err != nil {
+				return mk("encrypt-fails", "header: "+err.Error())
+			}
+			cp := func(h *tar.Header) *tar.Header {
+				c := *h
+				c.PAXRecords = map[string]string{}
+				for k, v := range h.PAXRecords {
+					c.PAXRecords[k] = v
+				}
+				return &c
+			}
+			for round := 0; round < 2; round++ {
+				if h := cp(eh); encryption.DecryptHeader(h, format, id2) == nil {
+					return mk("other-pair-decrypts", fmt.Sprintf("a different pair decrypted a header record (attempt %d, %s the right pair decrypted it)", round+1, []string{"before", "after"}[round]))
+				}
+				h := cp(eh)
+				if err := encryption.DecryptHeader(h, format, id); err != nil {
+					return mk("decrypt-fails", "header: "+err.Error())
+				}
+				if w := mkHdr(); h.Name != w.Name || h.Size != w.Size || h.Mode != w.Mode || h.Uid != w.Uid || h.Gid != w.Gid || !h.ModTime.Equal(w.ModTime) || h.PAXRecords["STFS.Action"] != "CREATE" {
+					return mk("decrypt-differs", fmt.Sprintf("header: %+v", h))
+				}
+				if pt, err := encryption.DecryptString(ct, format, id2); err == nil {
+					return mk("other-pair-decrypts", fmt.Sprintf("a different pair decrypted the message after the right pair had (%d bytes)", len(pt)))
+				}
+			}
+			st.Add("header_cross_pair_rounds", 2)
 			_ = pub2
 		} else {
 			rec, err := keys.ParseSignerRecipient(format, pub)
@@ -194,6 +229,49 @@ func evalC18(t *testing.T, c *Case, st *Stats, relax Relax) *Violation {
 					return mk("other-pair-verifies", "a different pair verified the stream signature")
 				}
 			}
+			// header records (what the tape carries), and every form once more: the other pair
+			// fails before AND after the right pair has verified the very same data
+			mkHdr := func() *tar.Header {
+				return &tar.Header{Typeflag: tar.TypeReg, Name: "/d/" + sumOf(msg), Size: int64(len(msg)), Mode: 0o640, Uid: 7, Gid: 8, ModTime: time.Unix(946684800, 0), Format: tar.FormatPAX,
+					PAXRecords: map[string]string{"STFS.Action": "CREATE"}}
+			}
+			sh := mkHdr()
+			if err := signature.SignHeader(sh, true, format, id); err != nil {
+				return mk("sign-fails", "header: "+err.Error())
+			}
+			cp := func(h *tar.Header) *tar.Header {
+				c := *h
+				c.PAXRecords = map[string]string{}
+				for k, v := range h.PAXRecords {
+					c.PAXRecords[k] = v
+				}
+				return &c
+			}
+			for round := 0; round < 2; round++ {
+				when := []string{"before", "after"}[round]
+				if signature.VerifyHeader(cp(sh), true, format, rec2) == nil {
+					return mk("other-pair-verifies", fmt.Sprintf("a different pair verified a signed header record (%s the right pair verified it)", when))
+				}
+				h := cp(sh)
+				if err := signature.VerifyHeader(h, true, format, rec); err != nil {
+					return mk("verify-fails", "header: "+err.Error())
+				}
+				if w := mkHdr(); h.Name != w.Name || h.Size != w.Size || h.Mode != w.Mode || h.Uid != w.Uid || h.Gid != w.Gid || !h.ModTime.Equal(w.ModTime) || h.PAXRecords["STFS.Action"] != "CREATE" {
+					return mk("verify-differs", fmt.Sprintf("header: %+v", h))
+				}
+				alt := cp(sh)
+				alt.PAXRecords["STFS.EmbeddedHeader"] = strings.Replace(alt.PAXRecords["STFS.EmbeddedHeader"], "416", "511", 1)
+				if alt.PAXRecords["STFS.EmbeddedHeader"] != sh.PAXRecords["STFS.EmbeddedHeader"] && signature.VerifyHeader(alt, true, format, rec) == nil {
+					return mk("verify-accepts-other-message", "an altered header record verifies")
+				}
+				if signature.VerifyString(string(msg), true, format, rec2, sig) == nil {
+					return mk("other-pair-verifies", "a different pair verified the string signature "+when+" a second look")
+				}
+				if err := signature.VerifyString(string(msg), true, format, rec, sig); err != nil {
+					return mk("verify-fails", "second look: "+err.Error())
+				}
+			}
+			st.Add("header_cross_pair_rounds", 2)
 		}
 		st.Nontrivial(fmt.Sprintf("%s|%d|%d|%d", kind, c.Param("pw", 0), c.Param("d0", 0), c.Param("d1", 0)))
 		st.Add("pairs_generated", 2)
